@@ -209,6 +209,29 @@ def run(ctx):
                 good_nodes.update(cfg.edge_nodes(t, "F"))
         ok = bool(tagcalls) and all(cfg.must_pass(cfg.entry, good_nodes, targets=[e]) for e in ends)
         r4.check(ok, f"{m.rel}:{q}:context-tag", "a provenance-recording path reaches record_job_end without recording the context tag for a non-empty context", m.rel, fn.lineno)
+    # ---- C05.5 the context tag is durable no later than the call node it qualifies ---------------
+    # A call node without a context tag is, for every reader (C05.2), a context-free result.  If the node is committed by one backend call and
+    # the tag by a later one, a crash (or an exhausted retry) between the two leaves exactly that: a result computed under a context that every
+    # context-free call with the same arguments will accept.
+    r5 = ctx.rule("C05.5", "a call node computed under a context never becomes durable without its context tag", floor=2)
+    for q in ("Scheduler._resolve_job_main_thread", "Scheduler._reject_job_main_thread"):
+        fn = m.func(q)
+        cfg5 = CFG(fn)
+        nodes = [cfg5.node_of(c) for c in calls_in(fn, shallow=True) if call_name(c) == "self.backend.record_call_node"]
+        tags = [cfg5.node_of(c) for c in calls_in(fn) if call_name(c) == "self.backend.record_call_node_context"]
+        if not nodes or not tags:
+            raise AnalysisError(f"{q}: record_call_node / record_call_node_context not found", q)
+        for n in nodes:
+            one_call = any(kw.arg in ("context", "context_hash") for c in ast.walk(n.ast) if isinstance(c, ast.Call) and call_name(c) == "self.backend.record_call_node" for kw in c.keywords)
+            tag_first = all(cfg5.dominates(t, n) for t in tags)
+            r5.check(
+                one_call or tag_first,
+                f"{m.rel}:{q}:node-then-context-tag",
+                f"{q} commits the call node with self.backend.record_call_node(...) and only afterwards records its context with record_call_node_context(...): a crash between the two "
+                "leaves a call node computed under a non-empty context without its tag, which a later context-free call accepts as its own result",
+                m.rel,
+                n.lineno,
+            )
 
 
 def _vars_assigned_from(fn, text):
